@@ -382,3 +382,6 @@ def run(ctx) -> None:
     mods = [m for m in prog.modules if m.startswith(('forml.io.dsl.parser', 'forml.provider.feed', 'forml.io._input'))]
     n = shared.r_truthy(ctx, tenv, prog.functions(mods), rule='R-TRUTHY')
     shared.r_element(ctx, [f'{PARSER}:Container.Context.Tables.select'])
+    from . import C14
+
+    C14.own_key_rule(ctx, 'C06.parse-never-fails')
